@@ -174,8 +174,8 @@ type c17Item struct {
 	ID     int      `json:"id"`
 	Key    c17Bytes `json:"key"`
 	Val    c17Val   `json:"val"`
-	Class  string   `json:"class"`  // value/key class, part of finding keys
-	Expect string   `json:"expect"` // ok | key too large | entry too large
+	Class  string   `json:"class"`          // value/key class, part of finding keys
+	Expect string   `json:"expect"`         // ok | key too large | entry too large
 	What   string   `json:"what,omitempty"` // for rejections: keylen=256, entry=ts+0 ...
 
 	key string
@@ -249,12 +249,12 @@ func (g *c17Gen) addV(val c17Val, class string) {
 
 func (g *c17Gen) nextTag() int { g.tag++; return g.tag }
 
-func c17I(t string, n int64) c17Val   { return c17Val{T: t, N: strconv.FormatInt(n, 10)} }
-func c17U(t string, n uint64) c17Val  { return c17Val{T: t, N: strconv.FormatUint(n, 10)} }
-func c17F32(bits uint32) c17Val       { return c17Val{T: "float32", N: fmt.Sprintf("0x%08x", bits)} }
-func c17F64(bits uint64) c17Val       { return c17Val{T: "float64", N: fmt.Sprintf("0x%016x", bits)} }
-func c17S(b c17Bytes) c17Val          { return c17Val{T: "string", B: &b} }
-func c17B(b c17Bytes) c17Val          { return c17Val{T: "bytes", B: &b} }
+func c17I(t string, n int64) c17Val  { return c17Val{T: t, N: strconv.FormatInt(n, 10)} }
+func c17U(t string, n uint64) c17Val { return c17Val{T: t, N: strconv.FormatUint(n, 10)} }
+func c17F32(bits uint32) c17Val      { return c17Val{T: "float32", N: fmt.Sprintf("0x%08x", bits)} }
+func c17F64(bits uint64) c17Val      { return c17Val{T: "float64", N: fmt.Sprintf("0x%016x", bits)} }
+func c17S(b c17Bytes) c17Val         { return c17Val{T: "string", B: &b} }
+func c17B(b c17Bytes) c17Val         { return c17Val{T: "bytes", B: &b} }
 func c17T(t time.Time) c17Val {
 	_, off := t.Zone()
 	return c17Val{T: "time", N: fmt.Sprintf("%d,%d,%d", t.Unix(), t.Nanosecond(), off)}
